@@ -677,6 +677,8 @@ class SyncObj(object):
                     logger.error(
                         'request to switch to unsupported code version (self version: %d, requested version: %d)' %
                         (self.__selfCodeVersion, e.ver))
+                    # nothing after the switch may be applied by a node that does not support it
+                    break
 
             if not self.__conf.appendEntriesUseBatch:
                 needSendAppendEntries = True
